@@ -82,6 +82,7 @@ type FuncContract struct {
 	Props     []string
 	Wraps     bool // signed arithmetic wraps silently (no overflow obligations)
 	NoTerm    bool
+	NoAlloc   bool // the function allocates nothing (checked at every exit; callers keep their allocation counter)
 	NoMerge   bool
 	InstName  string
 	GhostParams []string
@@ -121,7 +122,7 @@ var clauseKeywords = map[string]bool{
 	"decreases": true, "loop": true, "invariant": true, "at": true, "assert": true, "ghost": true,
 	"mode": true, "trusted": true, "inline": true, "pure": true, "axiom": true, "global": true,
 	"type": true, "lemma": true, "props": true, "wraps": true, "unroll": true, "uses": true,
-	"guarded_by": true, "noterm": true, "nomerge": true, "traced": true, "bind": true, "ghostparam": true, "recspec": true, "opaque": true, "assume": true, "havoc": true,
+	"guarded_by": true, "noterm": true, "noalloc": true, "nomerge": true, "traced": true, "bind": true, "ghostparam": true, "recspec": true, "opaque": true, "assume": true, "havoc": true,
 	"split": true, "stdlib": true, "defspec": true, "ih": true, "apply": true,
 }
 
@@ -344,6 +345,8 @@ func parseContractFile(path string, pkg string, pc *PkgContracts) error {
 			cur.InstParam, cur.InstName = f[0], f[1]
 		case "noterm":
 			cur.NoTerm = true
+		case "noalloc":
+			cur.NoAlloc = true
 		case "nomerge":
 			cur.NoMerge = true
 		case "props":
